@@ -1,6 +1,7 @@
 package main
 
 import (
+	"os"
 	"fmt"
 	"go/constant"
 	"go/token"
@@ -39,11 +40,11 @@ func (g *gen) havocAllHeap(reason string) {
 		}
 		g.heapHavoc(k)
 	}
-	if g.curBlock != nil {
-		w := g.written[g.curBlock]
+	if wb := g.wblock(); wb != nil {
+		w := g.written[wb]
 		if w == nil {
 			w = map[string]bool{}
-			g.written[g.curBlock] = w
+			g.written[wb] = w
 		}
 		w["*"] = true
 	}
@@ -239,7 +240,11 @@ func (g *gen) call(instr ssa.Instruction, c *ssa.CallCommon, pos token.Pos) Val 
 			// a contract that only names a measure: the call is otherwise treated like a call of an uncontracted function
 			g.decreasesObligation(ctr, key, callee, args, pos)
 		}
-		// no contract: inferred frame, unconstrained results
+		// no contract: a small callee without loops is executed in place (so that extracting a helper from a function under
+		// contract does not cut its proof in two); otherwise inferred frame, unconstrained results
+		if g.canInline(callee) {
+			return g.inlineCall(callee, args, bindings, sig, pos)
+		}
 		g.frameCheckKeys(g.e.modSetOf(callee), pos, callee.Name())
 		g.havocKeysKeepingOld(g.e.modSetOf(callee), g.e.oldWriteSet(callee), len(callee.FreeVars) > 0)
 		g.tick()
@@ -1500,4 +1505,179 @@ func mayBeAstcastResult(v ssa.Value, e *Engine, fn *ssa.Function) bool {
 		return false
 	}
 	return rec(v, 0)
+}
+
+// ---------------------------------------------------------------------------
+// inlining of small uncontracted callees
+
+const inlineMaxInstrs = 80
+
+// canInline: the callee has no contract, is not recursive, has a body without loops, defers, goroutines or closures of
+// its own, is small, and the function under verification carries an explicit contract (pure sweep functions keep the
+// modular treatment, so their ledgers do not depend on their callees' bodies).
+func (g *gen) canInline(callee *ssa.Function) bool {
+	if os.Getenv("VERIF_NO_INLINE") != "" {
+		return false
+	}
+	root := g.e.ctrs[g.key]
+	if root == nil || root.terminationOnly() || g.sweepFrames != "" || g.onCall != nil {
+		return false // (the frame sweep and the Warn-site sweep reason at call boundaries by design)
+	}
+	if len(callee.Blocks) == 0 || g.e.sccIndex()[callee] != 0 || len(callee.AnonFuncs) > 0 || callee.Recover != nil {
+		return false
+	}
+	depth := 0
+	if g.inl != nil {
+		depth = g.inl.depth
+	}
+	if depth >= 2 {
+		return false
+	}
+	n := 0
+	for _, b := range callee.Blocks {
+		for _, s := range b.Succs {
+			if s.Dominates(b) {
+				return false // a loop
+			}
+		}
+		for _, ins := range b.Instrs {
+			n++
+			switch ins.(type) {
+			case *ssa.Defer, *ssa.Go, *ssa.Select, *ssa.MakeClosure, *ssa.Range, *ssa.Next:
+				return false
+			}
+		}
+	}
+	return n <= inlineMaxInstrs
+}
+
+func (g *gen) inlineCall(callee *ssa.Function, args []Val, bindings []Val, sig *types.Signature, pos token.Pos) Val {
+	g.assumed["uncontracted callee executed in place: "+funcKey(callee)] = true
+	g.inlineSeq++
+	depth := 1
+	callerBlock := g.curBlock
+	if g.inl != nil {
+		depth = g.inl.depth + 1
+		callerBlock = g.inl.callerBlock
+	}
+	ctx := &inlineCtx{prefix: fmt.Sprintf("i%d_", g.inlineSeq), callerBlock: callerBlock, entryReach: g.curReach, depth: depth}
+	saveFn, saveBlock, saveReach, saveInl, saveCtr, saveIface, saveRet := g.fn, g.curBlock, g.curReach, g.inl, g.ctr, g.ifaceCtrs, g.retVals
+	saveMeasure, saveDeferred, saveSafety := g.entryMeasure, g.deferred, g.options.safety
+	g.fn, g.inl, g.ctr, g.ifaceCtrs, g.retVals, g.entryMeasure, g.deferred = callee, ctx, nil, nil, nil, "", nil
+	// the callee's own panic-freedom is decided where it always was: in the safety sweep of the callee itself
+	g.options.safety = false
+	for _, b := range callee.Blocks {
+		delete(g.reach, b)
+		delete(g.out, b)
+	}
+	for i, p := range callee.Params {
+		if i < len(args) {
+			a := args[i]
+			if a.Typ == nil {
+				a.Typ = p.Type()
+			}
+			g.vals[p] = a
+		}
+	}
+	for i, fv := range callee.FreeVars {
+		if i < len(bindings) {
+			g.vals[fv] = bindings[i]
+		}
+	}
+	if g.nilArgs {
+		// safety sweep: what the callee would assume of its arguments at entry is what the caller has just been asked to
+		// show at the call (nilarg obligations); it is assumed for the inlined body as it would be for the separate function
+		env := g.specEnvHere()
+		env.calleeMode = true
+		env.fn = nil
+		if callee.Pkg != nil {
+			env.pkg = callee.Pkg.Pkg
+		}
+		for i, p := range callee.Params {
+			if i < len(args) {
+				env.vars[p.Name()] = g.vals[p]
+			}
+		}
+		for _, r := range g.e.sweepContract(callee, "C01").Requires {
+			if t, err := g.evalBool(env, r.E); err == nil {
+				g.assume(t)
+			}
+		}
+	}
+	for _, b := range g.rpo() {
+		g.block(b)
+	}
+	rets := ctx.rets
+	g.fn, g.curBlock, g.inl, g.ctr, g.ifaceCtrs, g.retVals, g.entryMeasure, g.deferred = saveFn, saveBlock, saveInl, saveCtr, saveIface, saveRet, saveMeasure, saveDeferred
+	g.options.safety = saveSafety
+	if len(rets) == 0 {
+		// the callee never returns (it always panics): the code after the call is unreachable
+		g.curReach = saveReach
+		g.assume("false")
+		return g.resultVal(sig, func(i int, t types.Type) Val { return g.freshVal("ret_"+callee.Name(), t) })
+	}
+	// join the return points
+	var cs []string
+	for _, r := range rets {
+		cs = append(cs, r.reach)
+	}
+	after := g.define(ctx.prefix+"returned", "Bool", or(cs...))
+	keys := map[string]bool{}
+	for _, r := range rets {
+		for k := range r.st.heap {
+			keys[k] = true
+		}
+	}
+	ks := make([]string, 0, len(keys))
+	for k := range keys {
+		ks = append(ks, k)
+	}
+	sort.Strings(ks)
+	ns := &state{heap: map[string]string{}}
+	for _, k := range ks {
+		term := ""
+		for i := len(rets) - 1; i >= 0; i-- {
+			v, ok := rets[i].st.heap[k]
+			if !ok {
+				v = g.heapInit(k, g.heapSort[k])
+			}
+			if term == "" {
+				term = v
+			} else {
+				term = ite(rets[i].reach, v, term)
+			}
+		}
+		if strings.HasPrefix(term, "(") {
+			term = g.define("Hm_"+k, g.heapSort[k], term)
+		}
+		ns.heap[k] = term
+	}
+	g.cur = ns
+	g.curReach = after
+	// everything after the call happens only if the callee returned
+	_ = saveReach
+	return g.resultVal(sig, func(i int, t types.Type) Val {
+		term := ""
+		var first Val
+		for j := len(rets) - 1; j >= 0; j-- {
+			if i >= len(rets[j].vals) {
+				continue
+			}
+			v := rets[j].vals[i]
+			if term == "" {
+				term, first = v.T, v
+			} else {
+				term = ite(rets[j].reach, v.T, term)
+			}
+		}
+		if term == "" {
+			return g.freshVal("ret_"+callee.Name(), t)
+		}
+		n := g.define(ctx.prefix+"ret", first.Sort, term)
+		out := Val{T: n, Sort: first.Sort, Typ: t}
+		if len(rets) == 1 {
+			out.Fn, out.Place = first.Fn, first.Place
+		}
+		return out
+	})
 }
